@@ -2551,6 +2551,7 @@ def to_arrow_table(
                 list_to32=list_to32,
                 string_to32=string_to32,
                 bytestring_to32=bytestring_to32,
+                allow_tensor=False,
             )
         )
         pa_fields.append(
